@@ -74,6 +74,9 @@ pub open spec fn vlq_enc_list(xs: Seq<int>) -> Seq<u8>
     if xs.len() == 0 { seq![] } else { vlq_enc_list(xs.drop_last()) + vlq_enc(xs.last()) }
 }
 
+/// every machine value the decoder stores has magnitude at most 2^62 (so adding a u32 to it cannot overflow an i64)
+pub open spec fn small_i64(v: i64) -> bool { -0x4000_0000_0000_0000 <= v <= 0x4000_0000_0000_0000 }
+
 pub open spec fn all_fit(xs: Seq<int>) -> bool { forall|k: int| 0 <= k < xs.len() ==> fits(#[trigger] xs[k]) }
 
 pub open spec fn ndigits(raw: int) -> nat decreases raw { if raw < 32 { 1 } else { 1 + ndigits(raw / 32) } }
@@ -160,17 +163,6 @@ pub proof fn lemma_enc_bits()
     assert forall|d: i64| 0 <= d < 32 implies #[trigger] (d | (1i64 << 5)) == d + 32 by { assert((d | (1i64 << 5)) == d + 32) by (bit_vector) requires 0 <= d < 32; }
     assert forall|n: i64| 0 <= n < 0x4000_0000_0000_0000 implies #[trigger] (n << 1) == n * 2 by { assert((n << 1) == n * 2) by (bit_vector) requires 0 <= n < 0x4000_0000_0000_0000; }
 }
-
-// ---------------------------------------------------------------- the real tables against the alphabet
-
-//@ lemma_table [C11 C06]
-proof fn lemma_table()
-    ensures forall|c: u8| #![auto] (b64_index(c) >= 0 ==> B64@[c as int] == b64_index(c)) && (b64_index(c) < 0 ==> B64@[c as int] < 0)
-{
-}
-
-//@ lemma_chars [C11 C03 C01]
-proof fn lemma_chars() ensures forall|d: int| 0 <= d < 64 ==> #[trigger] B64_CHARS@[d] == b64_char(d) {}
 
 // ---------------------------------------------------------------- inverse lemmas (spec level)
 
